@@ -15,6 +15,8 @@ type Clause struct {
 	Kind  string // requires ensures panics invariant assert assume lemma
 	Tags  []string
 	Label string
+	EachReturn bool // monitor clause: proved at every return statement (in that path's own state) instead of at the merged exit
+	By    []string // proof hint: the only quantified assumptions (by label) handed to the solver for this obligation; nil = all
 	Src   string
 	Expr  SExpr
 	Line  int
@@ -29,7 +31,7 @@ type GhostDecl struct {
 
 type AnchorAction struct {
 	Anchor string // e.g. "after call findCyclePath#1", "loop 1 end"
-	Kind   string // assert | assume | ghost
+	Kind   string // assert | assume | ghost | use | obtain | exhibit
 	Clause *Clause
 	Var    string // for ghost assignment
 	Index  string // optional index expr source for ghost array update var[idx] := e
@@ -63,6 +65,7 @@ type FuncContract struct {
 	SafetyTags []string
 	SafetyOff  bool
 	Ghosts     []GhostDecl
+	Exports    []string // ghosts whose final values callers may read (ghostof) and whose posts callers may assume
 	Loops      map[string]*LoopSpec
 	Actions    []*AnchorAction
 	Replay     string
@@ -105,6 +108,9 @@ type LemmaDecl struct {
 	Vars     []SBind
 	Requires []*Clause
 	Ensures  []*Clause
+	Induct   string   // induction variable (an int var of the lemma): ensures is proved for 0 and from i to i+1, and holds for every i >= 0
+	Uses     []string // other lemmas instantiated in the proof: "name(arg, ...)"
+	Pkg      string
 }
 
 var tagRe = regexp.MustCompile(`^([a-z_]+)(\[[A-Za-z0-9, ]+\])?\s*(.*)$`)
@@ -112,7 +118,10 @@ var tagRe = regexp.MustCompile(`^([a-z_]+)(\[[A-Za-z0-9, ]+\])?\s*(.*)$`)
 var keywords = map[string]bool{"pred": true, "axiom": true, "field": true, "rely": true, "func": true, "mode": true,
 	"requires": true, "ensures": true, "panics": true, "modifies": true, "pure": true, "interferes": true, "may_panic": true,
 	"nocheck": true, "safety": true, "ghost": true, "loop": true, "invariant": true, "decreases": true, "at": true,
-	"replay": true, "inline": true, "lockinv": true, "dead": true, "monitor": true, "unchecked": true, "lemma": true, "let": true, "nopanic": true, "vars": true}
+	"replay": true, "inline": true, "lockinv": true, "dead": true, "monitor": true, "unchecked": true, "lemma": true, "let": true, "nopanic": true, "vars": true, "exports": true, "induct": true, "use": true}
+
+// label by(l1, l2): expr
+var byRe = regexp.MustCompile(`^([A-Za-z_][A-Za-z_0-9]*)\s+by\(([^)]*)\)\s*(each_return)?\s*:([^:].*)$`)
 
 func parseTags(s string) []string {
 	s = strings.Trim(s, "[]")
@@ -186,12 +195,24 @@ func LoadContractFile(path string, cs *ContractSet) error {
 	var curLoop *LoopSpec
 	var curLemma *LemmaDecl
 	mkClause := func(kind string, tags []string, rest string, ln int) (*Clause, error) {
+		var by []string
+		each := false
+		if m := byRe.FindStringSubmatch(rest); m != nil {
+			by = []string{}
+			for _, p := range strings.Split(m[2], ",") {
+				if p = strings.TrimSpace(p); p != "" && p != "none" {
+					by = append(by, p)
+				}
+			}
+			each = m[3] != ""
+			rest = m[1] + ":" + m[4]
+		}
 		lab, src := splitLabel(rest)
 		e, err := ParseSpec(src)
 		if err != nil {
 			return nil, fmt.Errorf("%s:%d: %v", path, ln, err)
 		}
-		return &Clause{Kind: kind, Tags: tags, Label: lab, Src: src, Expr: e, Line: ln, File: path}, nil
+		return &Clause{Kind: kind, Tags: tags, Label: lab, By: by, EachReturn: each, Src: src, Expr: e, Line: ln, File: path}, nil
 	}
 	for _, l := range joined {
 		m := tagRe.FindStringSubmatch(l.text)
@@ -268,7 +289,7 @@ func LoadContractFile(path string, cs *ContractSet) error {
 			}
 			cs.Fields = append(cs.Fields, fd)
 		case "lemma":
-			curLemma = &LemmaDecl{Name: rest, Tags: tags}
+			curLemma = &LemmaDecl{Name: rest, Tags: tags, Pkg: cs.PkgPath}
 			cs.Lemmas = append(cs.Lemmas, curLemma)
 			cur, curLoop = nil, nil
 		case "vars":
@@ -280,6 +301,16 @@ func LoadContractFile(path string, cs *ContractSet) error {
 				k := strings.Index(ps, " ")
 				curLemma.Vars = append(curLemma.Vars, SBind{ps[:k], strings.TrimSpace(ps[k+1:])})
 			}
+		case "induct":
+			if curLemma == nil {
+				return fmt.Errorf("%s:%d: induct outside lemma", path, l.no)
+			}
+			curLemma.Induct = rest
+		case "use":
+			if curLemma == nil {
+				return fmt.Errorf("%s:%d: use outside lemma (in functions: at <anchor> : use ...)", path, l.no)
+			}
+			curLemma.Uses = append(curLemma.Uses, rest)
 		case "func":
 			cur = &FuncContract{Pkg: cs.PkgPath, Name: rest, File: path, Line: l.no, Mode: "seq", Loops: map[string]*LoopSpec{}}
 			if _, dup := cs.Funcs[rest]; dup {
@@ -383,7 +414,17 @@ func LoadContractFile(path string, cs *ContractSet) error {
 				} else {
 					g.Type = strings.TrimSpace(rest[i+1:])
 				}
+				switch g.Name {
+				case "clock", "alloc", "panicking", "panicval", "result", "seen", "idx", "rangekey":
+					return fmt.Errorf("%s:%d: ghost name %q is reserved", path, l.no, g.Name)
+				}
 				cur.Ghosts = append(cur.Ghosts, g)
+			case "exports":
+				for _, p := range strings.Split(rest, ",") {
+					if p = strings.TrimSpace(p); p != "" {
+						cur.Exports = append(cur.Exports, p)
+					}
+				}
 			case "let":
 				j := strings.Index(rest, " = ")
 				if j < 0 {
@@ -452,6 +493,67 @@ func LoadContractFile(path string, cs *ContractSet) error {
 						return fmt.Errorf("%s:%d: %v", path, l.no, err)
 					}
 					a.Expr = e
+				case "use":
+					// use lemma(arg, ...) [when cond]
+					body := strings.TrimSpace(m2[3])
+					if k := strings.Index(body, " when "); k > 0 {
+						c, err := mkClause("when", nil, strings.TrimSpace(body[k+6:]), l.no)
+						if err != nil {
+							return err
+						}
+						a.Clause = c
+						body = strings.TrimSpace(body[:k])
+					}
+					e, err := ParseSpec(body)
+					if err != nil {
+						return fmt.Errorf("%s:%d: %v", path, l.no, err)
+					}
+					a.Expr = e
+				case "exhibit":
+					// exhibit[tags] label [by(..)]: x := witness :: clause   (existential introduction: the clause is
+					// `exists x T :: body` or a predicate defined as one; body[x := witness] is the obligation, the clause is then known)
+					body := strings.TrimSpace(m2[3])
+					c0 := strings.Index(body, ":")
+					k := strings.Index(body, "::")
+					if c0 < 0 || k < 0 || c0 >= k {
+						return fmt.Errorf("%s:%d: bad exhibit (need 'label: x := witness :: clause')", path, l.no)
+					}
+					mid := body[c0+1 : k]
+					as := strings.Index(mid, ":=")
+					if as < 0 {
+						return fmt.Errorf("%s:%d: bad exhibit (need 'x := witness')", path, l.no)
+					}
+					a.Var = strings.TrimSpace(mid[:as])
+					we, err := ParseSpec(strings.TrimSpace(mid[as+2:]))
+					if err != nil {
+						return fmt.Errorf("%s:%d: %v", path, l.no, err)
+					}
+					a.Expr = we
+					c, err := mkClause("exhibit", parseTags(m2[2]), body[:c0]+": "+strings.TrimSpace(body[k+2:]), l.no)
+					if err != nil {
+						return err
+					}
+					a.Clause = c
+				case "obtain":
+					// obtain name Type :: expr   (existential elimination: proves exists name :: expr, then names a witness)
+					body := strings.TrimSpace(m2[3])
+					k := strings.Index(body, "::")
+					sp := strings.Index(body, " ")
+					if k < 0 || sp < 0 || sp > k {
+						return fmt.Errorf("%s:%d: bad obtain (need 'name Type :: expr')", path, l.no)
+					}
+					a.Var = body[:sp]
+					a.Index = strings.TrimSpace(body[sp+1 : k])
+					byHint := ""
+					if b := strings.Index(a.Index, " by("); b > 0 {
+						byHint = a.Index[b:]
+						a.Index = strings.TrimSpace(a.Index[:b])
+					}
+					c, err := mkClause("obtain", parseTags(m2[2]), a.Var+"_exists"+byHint+": "+strings.TrimSpace(body[k+2:]), l.no)
+					if err != nil {
+						return err
+					}
+					a.Clause = c
 				default:
 					return fmt.Errorf("%s:%d: unknown action %s", path, l.no, m2[1])
 				}
